@@ -74,6 +74,13 @@ def judge_message(ctx, t, a, tm, builder='ctor'):
                   lambda: {'str': s[:120], 'back': repr(back)[:160]})
         back = parse_string(s)
         ctx.check('from_str(str(m)) == m', eq_typed(back, m), f'parse_string:{t}', case, None)
+        # "the string can span multiple lines", "extra whitespace is ignored": other whitespace between the words
+        for ws in ('\n', '\t', '  ', '\r\n', ' \n ', '\n\n'):
+            s2 = ws.join(s.split(' ')) if t != 'sysex' or ' ' not in s.split('data=')[-1].split(')')[0] else s.replace(' ', ws)
+            for fn in (parse_string, Message.from_str):
+                back = fn(ws.strip(' ') + s2 + ws if ws.strip(' ') else ' ' + s2 + ' ')
+                ctx.check('from_str(str(m)) == m', eq_typed(back, m), f'whitespace-variant:{fn.__name__}:{t}', case,
+                          lambda: {'text': s2[:120], 'back': repr(back)[:160]})
         # the caller edits what it got; parsing the same text again still gives m
         try:
             back.time = 4242
